@@ -534,14 +534,14 @@ class StmtMixin:
         """Loop cut at the contract's invariant.  itv must be an SSeq / abstract list."""
         seqv = self.as_sseq(st, itv, n)
         k0 = 0
-        ctx = LoopCtx(self, st, fr, z3.IntVal(0), seqv)
+        ctx = LoopCtx(self, n,st, fr, z3.IntVal(0), seqv)
         for i, inv in enumerate(spec.invariant(ctx)):
             self.obligations.append((f"{spec.name}.inv_entry[{i}]", list(st.pc), inv, n.lineno))
         # arbitrary iteration
         s = st.fork()
         k = z3.Int(fresh_name("k"))
         self.havoc(s, fr, spec, n)
-        ctx = LoopCtx(self, s, fr, k, seqv)
+        ctx = LoopCtx(self, n,s, fr, k, seqv)
         s.assume(k >= 0, k < seqv.n)
         for inv in spec.invariant(ctx):
             s.assume(inv)
@@ -554,7 +554,7 @@ class StmtMixin:
                 continue
             for s3, c in self.exec_block(n.body, s2, fr):
                 if c.kind in ("ok", "continue"):
-                    ctx2 = LoopCtx(self, s3, fr, k + 1, seqv)
+                    ctx2 = LoopCtx(self, n,s3, fr, k + 1, seqv)
                     for i, inv in enumerate(spec.invariant(ctx2)):
                         self.obligations.append((f"{spec.name}.inv_preserved[{i}]", list(s3.pc), inv, n.lineno))
                 elif c.kind == "break":
@@ -564,7 +564,7 @@ class StmtMixin:
         # exit
         s = st.fork()
         self.havoc(s, fr, spec, n)
-        ctx = LoopCtx(self, s, fr, seqv.n, seqv)
+        ctx = LoopCtx(self, n,s, fr, seqv.n, seqv)
         s.assume(seqv.n >= 0)
         for inv in spec.invariant(ctx):
             s.assume(inv)
@@ -601,19 +601,19 @@ class StmtMixin:
                 v = fresh(name, kind)
             st.frames[fr.fid][name] = v
         if spec.heap is not None:
-            spec.heap(st)
+            spec.heap(st, st.frames[fr.fid])
 
     def st_While(self, n, st, fr):
         ordinal = self.loop_ordinal(fr, n)
         spec = self.loops.get((fr.qualname, ordinal))
         if spec is None:
             return self.unrolled_while(n, st, fr)
-        ctx = LoopCtx(self, st, fr, None, None)
+        ctx = LoopCtx(self, n,st, fr, None, None)
         for i, inv in enumerate(spec.invariant(ctx)):
             self.obligations.append((f"{spec.name}.inv_entry[{i}]", list(st.pc), inv, n.lineno))
         s = st.fork()
         self.havoc(s, fr, spec, n)
-        ctx = LoopCtx(self, s, fr, None, None)
+        ctx = LoopCtx(self, n,s, fr, None, None)
         for inv in spec.invariant(ctx):
             s.assume(inv)
         out = []
@@ -631,7 +631,7 @@ class StmtMixin:
                     continue
                 for s3, c in self.exec_block(n.body, s2, fr):
                     if c.kind in ("ok", "continue"):
-                        ctx2 = LoopCtx(self, s3, fr, None, None)
+                        ctx2 = LoopCtx(self, n,s3, fr, None, None)
                         for i, inv in enumerate(spec.invariant(ctx2)):
                             self.obligations.append((f"{spec.name}.inv_preserved[{i}]", list(s3.pc), inv, n.lineno))
                         if v0 is not None:
@@ -673,15 +673,24 @@ class StmtMixin:
 
 
 class LoopCtx:
-    def __init__(self, interp, st, fr, k, seqv):
+    def __init__(self, interp, node, st, fr, k, seqv):
         self.interp = interp
         self.st = st
         self.fr = fr
         self.k = k
         self.seq = seqv
+        snaps = interp.__dict__.setdefault("_loop_entry", {})
+        key = (fr.fid, id(node))
+        if key not in snaps:
+            snaps[key] = st.fork()  # first context of a loop is built on its entry state
+        self.entry = snaps[key]
 
     def local(self, name):
         return self.st.frames[self.fr.fid][name]
+
+    def entry_local(self, name):
+        """value of a local at loop entry (before any iteration)"""
+        return self.entry.frames[self.fr.fid][name]
 
     def term(self, name, kind=None):
         return to_term(self.local(name), kind)
